@@ -188,7 +188,68 @@ def dp(P, C, variant=None):
             helper = _common_order_helper(P, f, ocv)
             if helper:
                 okc, det = True, "constant order from %s: order[0] when every order[j], 1 <= j < ndim, equals it, else 0" % helper
+        if not okc:
+            okc2, det2 = _common_order_all_of(P, f, ocv)
+            if okc2:
+                okc, det = okc2, det2
         C.ob("DP-4", name, "constant-order", okc, f.where(), det)
+
+
+def _common_order_all_of(P, f, ocv):
+    """`u = std::all_of(order + 1, order + ndim, [first](o){ return o == first; }); constOrder = u ? first : 0;` with first = order[0]"""
+    R = lambda x: f.render(x).replace("this->", "").replace(" ", "")       # noqa: E731
+    decl = {d["id"]: d for i in f.walk() if f.k(i) == "DeclStmt" for d in f.nodes[i]["decls"] if "id" in d}
+    d = decl.get(ocv)
+    if not d or d.get("init", -1) < 0:
+        return False, ""
+    c = f.strip(d["init"])
+    if f.k(c) != "ConditionalOperator" or len(f.ch(c)) != 3:
+        return False, ""
+    cond, a, b = (f.strip(x) for x in f.ch(c))
+
+    def value_of(x):
+        """the expression a never-reassigned local stands for (one step), else its own text"""
+        if f.k(x) == "DeclRefExpr" and f.nodes[x]["decl"].get("kind") == "Var":
+            dd = decl.get(f.nodes[x]["decl"].get("id"))
+            stores = [y for y in f.walk() if ts.assign_parts(f, y) and f.k(f.strip(ts.assign_parts(f, y)[0])) == "DeclRefExpr" and
+                      f.nodes[f.strip(ts.assign_parts(f, y)[0])]["decl"].get("id") == f.nodes[x]["decl"].get("id") and f.k(y) != "DeclStmt"]
+            if dd and dd.get("init", -1) >= 0 and not stores:
+                return f.strip(dd["init"])
+        return x
+    if R(value_of(a)) != "order[0]" or R(b) != "0":
+        return False, ""
+    call = value_of(cond)
+    cal = f.nodes[call].get("callee") or {}
+    if call == cond or cal.get("name") != "all_of" or not str(cal.get("qname", "")).startswith("std::"):
+        return False, ""
+    args = f.args(call)
+    if len(args) != 3 or R(args[0]) not in ("(order+1)", "(&order[1])") or R(args[1]) not in ("(order+ndim)", "(&order[ndim])"):
+        return False, "std::all_of over %s .. %s: not the orders of dimensions 1 .. ndim-1" % (R(args[0]) if args else "?", R(args[1]) if len(args) > 1 else "?")
+    lam = next((x for x in f.walk(args[2]) if f.k(x) == "LambdaExpr"), None)
+    g = P.functions.get(f.nodes[lam].get("lambdaUsr")) if lam is not None else None
+    if g is None or len(g.params) != 1 or g.body is None:
+        return False, "the predicate of std::all_of cannot be inspected"
+    kids = [x for x in g.ch(g.body)] if g.k(g.body) == "CompoundStmt" else []
+    if len(kids) != 1 or g.k(kids[0]) != "ReturnStmt" or not g.ch(kids[0]):
+        return False, "the predicate of std::all_of is not a single comparison"
+    e = g.strip(g.ch(kids[0])[0])
+    if g.k(e) != "BinaryOperator" or g.nodes[e].get("op") != "==":
+        return False, "the predicate of std::all_of is not an equality"
+    l, r = (g.strip(x) for x in g.nodes[e]["ch"])
+    sides = []
+    for x in (l, r):
+        if g.k(x) == "DeclRefExpr" and g.nodes[x]["decl"].get("id") == g.params[0]["id"]:
+            sides.append("element")
+        elif g.k(x) == "DeclRefExpr" and g.nodes[x]["decl"].get("kind") == "Var":
+            # a captured local of the caller: what it stands for there
+            cap = next((y for y in range(len(f.nodes)) if f.k(y) == "DeclStmt" and not f.nodes[y].get("foldedFrom")
+                        for dd in f.nodes[y]["decls"] if dd.get("name") == g.nodes[x]["decl"].get("name")), None)     # also one that N6 took out of the tree
+            dd = next((dd for dd in f.nodes[cap]["decls"] if dd.get("name") == g.nodes[x]["decl"].get("name")), None) if cap is not None else None
+            sides.append(R(dd["init"]) if dd and dd.get("init", -1) >= 0 and "const" in dd.get("type", "") else "?")
+        else:
+            sides.append(g.render(x).replace("this->", "").replace(" ", ""))
+    ok = sorted(sides) == sorted(["element", "order[0]"])
+    return ok, "constant order = order[0] when std::all_of(order+1, order+ndim, o == order[0]), else 0: %s" % sides
 
 
 def _common_order_helper(P, f, ocv):
@@ -1336,6 +1397,8 @@ def cl6(P, C):
                 order0 = i
     # recursive calls and the derivative order they pass
     rec = [i for i, cal in f.calls() if cal and cal["usr"] == f.usr]
+    le1 = (core.Poly.atom("$4") - core.Poly.const(2), "<0")     # order <= 1
+    gt1 = (core.Poly.const(1) - core.Poly.atom("$4"), "<0")     # order > 1
     guarded = True
     for i in rec:
         a = f.args(i)
@@ -1353,6 +1416,15 @@ def cl6(P, C):
                 gt1 = (core.Poly.const(1) - core.Poly.atom("$4"), "<0")     # order > 1
                 if (rc == le1 and not inthen) or (rc == gt1 and inthen):
                     ok = True
+        if not ok:
+            # ... or the operand of a conditional expression selected by the same test: `c ? bspline(..) : bspline_deriv(.., order-1)`
+            chain = [i] + list(f.ancestors(i))
+            for anc in chain:
+                if f.k(anc) == "ConditionalOperator" and len(f.ch(anc)) == 3:
+                    rc = core.rel_canon(f, _value_of_local(f, f.ch(anc)[0]), vg_atomizer(f))
+                    first = f.ch(anc)[1] in chain
+                    if (rc == le1 and not first) or (rc == gt1 and first):
+                        ok = True
         guarded = guarded and ok
     ok = zero_ret is not None and (guarded or (order0 is not None and _dominates_if(f, order0, zero_ret, pos, dom)))
     C.ob("CL-6", "bspline_deriv", "base-cases", ok, f.loc(zero_ret) if zero_ret is not None else f.where(),
@@ -1362,12 +1434,89 @@ def cl6(P, C):
     terms = [f.alpha(i)[0] for i in f.walk() if f.k(i) in ("BinaryOperator", "CompoundAssignOperator") and f.nodes[i]["op"] in ("=", "-=")
              and f.render(f.nodes[i]["ch"][0]) == "result"]
     import re as _re
+    # `double result = A;` declares and stores at once
+    for i in f.walk():
+        if f.k(i) == "DeclStmt":
+            for d in f.nodes[i]["decls"]:
+                if d.get("name") == "result" and d.get("init", -1) >= 0:
+                    t_, o_ = f.alpha(d["init"])
+                    # the declared variable is v0 in the statement forms above: shift the locals of the initialiser by one
+                    t_ = _re.sub(r"\bv(\d+)\b", lambda m: "v%d" % (int(m.group(1)) + 1), t_)
+                    terms.append("(v0 = %s)" % t_)
+    # a factor held in a local that is never assigned again stands for its initialiser; when that is `c ? a : b` with c the test of the
+    # derivative order, the statement is two statements, one per outcome, and both have to have the form
+    expanded = []
+    for i in [x for x in f.walk() if (f.k(x) in ("BinaryOperator", "CompoundAssignOperator") and f.nodes[x]["op"] in ("=", "-=") and
+                                      f.render(f.nodes[x]["ch"][0]) == "result") or
+              (f.k(x) == "DeclStmt" and any(d.get("name") == "result" and d.get("init", -1) >= 0 for d in f.nodes[x]["decls"]))]:
+        if f.k(i) == "DeclStmt":
+            d = next(d for d in f.nodes[i]["decls"] if d.get("name") == "result")
+            t_, o_ = f.alpha(d["init"])
+            t_ = "(v0 = %s)" % _re.sub(r"\bv(\d+)\b", lambda m: "v%d" % (int(m.group(1)) + 1), t_)
+            o_ = [d["id"]] + list(o_)
+        else:
+            t_, o_ = f.alpha(i)
+        alts = [t_]
+        for k_, vid in enumerate(o_):
+            if k_ == 0:
+                continue
+            init = _local_init(f, vid)
+            if init is None:
+                continue
+            e = f.strip(init)
+            if f.k(e) == "ConditionalOperator" and len(f.ch(e)) == 3 and \
+                    core.rel_canon(f, _value_of_local(f, f.ch(e)[0]), vg_atomizer(f)) in (le1, gt1):
+                subs = [f.alpha(f.ch(e)[1]), f.alpha(f.ch(e)[2])]
+            else:
+                subs = [f.alpha(e)]
+            if any(o2 for _t2, o2 in subs):
+                continue            # the initialiser mentions locals of its own: left as it is
+            alts = [_re.sub(r"\bv%d\b" % k_, t2, a_) for a_ in alts for t2, _o2 in subs]
+        expanded.append(alts)
+    if any(len(a_) > 1 or a_[0] not in terms for a_ in expanded):
+        terms = [t for a_ in expanded for t in a_]
     pat_a = _re.compile(r"^\(v0 = \(\(\$3 \* (bspline|bspline_deriv)\(\$0, \$1, \$2, \(\$3 - 1\)(, \(\$4 - 1\))?\)\) / \(\$0\[\(\$2 \+ \$3\)\] - \$0\[\$2\]\)\)\)$")
     pat_b = _re.compile(r"^\(v0 -= \(\(\$3 \* (bspline|bspline_deriv)\(\$0, \$1, \(\$2 \+ 1\), \(\$3 - 1\)(, \(\$4 - 1\))?\)\) / \(\$0\[\(\(\$2 \+ \$3\) \+ 1\)\] - \$0\[\(\$2 \+ 1\)\]\)\)\)$")
     na = sum(1 for t in terms if pat_a.match(t))
     nb = sum(1 for t in terms if pat_b.match(t))
     C.ob("CL-6", "bspline_deriv", "recursion-first-term", na >= 1 and na + nb == len(terms), f.where(), "n*f(i,n-1)/(knots[i+n]-knots[i]): %d of %d statements" % (na, len(terms)))
     C.ob("CL-6", "bspline_deriv", "recursion-second-term", nb >= 1 and na == nb, f.where(), "minus n*f(i+1,n-1)/(knots[i+n+1]-knots[i+1]): %d" % nb)
+
+
+def _local_init(f, vid):
+    """initialiser of a local that is declared with one and never stored to again, else None"""
+    init = None
+    for i in f.walk():
+        if f.k(i) == "DeclStmt":
+            for d in f.nodes[i]["decls"]:
+                if d.get("id") == vid and d.get("dk") == "Var" and d.get("init", -1) >= 0:
+                    init = d["init"]
+    if init is None:
+        return None
+    for x in f.walk():
+        n = f.nodes[x]
+        tgt = None
+        if n["k"] in ("BinaryOperator", "CompoundAssignOperator") and n.get("op", "").endswith("=") and n["op"] not in ("==", "!=", "<=", ">="):
+            tgt = f.strip(n["ch"][0])
+        elif n["k"] == "UnaryOperator" and n.get("op") in ("++", "--", "&"):
+            tgt = f.strip(n["ch"][0])
+        if tgt is not None and f.k(tgt) == "DeclRefExpr" and f.nodes[tgt]["decl"].get("id") == vid:
+            return None
+    return init
+
+
+def _value_of_local(f, x):
+    """the expression a never-reassigned local stands for (followed through), else the node itself"""
+    for _ in range(4):
+        y = f.strip(x)
+        if f.k(y) == "DeclRefExpr" and f.nodes[y]["decl"].get("kind") == "Var":
+            init = _local_init(f, f.nodes[y]["decl"].get("id"))
+            if init is None:
+                return x
+            x = init
+        else:
+            return x
+    return x
 
 
 def vg_atomizer(f):
